@@ -41,6 +41,18 @@ where
     QueryType: DeserializeOwned + JsonSchema + Send + Sync,
 {
     let raw_query_string = request.uri().query().unwrap_or("");
+    // The URL-encoded parser silently replaces escape sequences that do not
+    // decode to valid UTF-8.  Refuse them instead (as for path segments) so
+    // that the handler never sees data the client did not send.
+    if percent_encoding::percent_decode_str(raw_query_string)
+        .decode_utf8()
+        .is_err()
+    {
+        return Err(HttpError::for_bad_request(
+            None,
+            String::from("unable to parse query string: invalid UTF-8"),
+        ));
+    }
     // TODO-correctness: are query strings defined to be urlencoded in this way?
     match serde_urlencoded::from_str(raw_query_string) {
         Ok(q) => Ok(Query { inner: q }),
